@@ -144,6 +144,13 @@ def run(ck, fb):
                 defs = un.defs.get(d['l'], [])
                 on_insert = on_delete = False
                 for kind, bb, j, node in defs:
+                    if kind == 'call':
+                        # a private helper that removes the absent nodes and reports whether it removed any
+                        nm = cfg.callee_name(node) or ''
+                        hb = fb.bodies.get(nm)
+                        if hb is not None and util.mut_calls_on_field(hb, 'all_nodes', r'BTreeMap::<K, V, A>::(remove|retain)$') and hb.local_ty(0) == 'bool':
+                            on_delete = True
+                        continue
                     if kind != 'stmt':
                         continue
                     rv = node['rv']
